@@ -107,6 +107,14 @@ func wideItems(f *corpus.Fam, validOnly bool, fn func(it *corpus.Item, src, why 
 	}
 }
 
+// chainPrograms: postfix chains (see corpus/chains.go), length by tier.
+func chainPrograms(c *core.Ctx) []string {
+	if c.Thorough() {
+		return corpus.ChainPrograms(5)
+	}
+	return corpus.ChainPrograms(4)
+}
+
 // validItems: corpus programs the reference driver accepts (on the tokens the real scanner produced).
 func validItems(f *corpus.Fam, level int) []*corpus.Item {
 	var out []*corpus.Item
@@ -171,6 +179,13 @@ func c02Run(c *core.Ctx) {
 				continue
 			}
 			c02One(c, mkCase(src, v, "special head/body/tail or literal form"))
+		}
+	}
+	for _, src := range chainPrograms(c) {
+		for _, v := range []*version.Version{drive.V74, drive.V56} {
+			if c.Next() {
+				c02One(c, mkCase(src, v, "postfix chain"))
+			}
 		}
 	}
 }
